@@ -31,6 +31,16 @@ def mix(*parts):
     return struct.unpack("<Q", h[:8])[0] >> 1 or 1
 
 
+def big_stack():
+    # the iterative decoder recurses once per rebuilt symbol (thousands deep on large blocks) and sanitizer
+    # builds have larger frames: a stack overflow caused by the instrumentation would be a false alarm
+    import resource
+    try:
+        resource.setrlimit(resource.RLIMIT_STACK, (512 << 20, 512 << 20))
+    except (ValueError, OSError):
+        pass
+
+
 def env_for(rc_params=None):
     e = dict(os.environ)
     e["ASAN_OPTIONS"] = ASAN_OPTS
@@ -66,7 +76,7 @@ class Known:
 def run_replay(binpath, spec, path, tier, timeout=300):
     cmd = [binpath, "--prop", spec["id"], "--tier", tier, "--replay", path] + spec.get("extra_args", [])
     try:
-        r = subprocess.run(cmd, stdout=subprocess.PIPE, stderr=subprocess.PIPE, env=env_for(), timeout=timeout)
+        r = subprocess.run(cmd, stdout=subprocess.PIPE, stderr=subprocess.PIPE, env=env_for(), timeout=timeout, preexec_fn=big_stack)
     except subprocess.TimeoutExpired:
         return "timeout", "", ""
     out = r.stdout.decode(errors="replace")
@@ -239,7 +249,7 @@ def main():
                 cmd = [eng, "--prop", pid, "--tier", tier, "--mode", mode, "--seed", str(sw), "--worker", str(w), "--nworkers", str(nw),
                        "--out", out, "--fail-out", fo, "--cur", cur, "--cases", str(ph.get("cases", 0))] + spec.get("extra_args", []) + ph.get("args", [])
             errf = open(os.path.join(rundir, "p%d-w%d.err" % (ph_i, w)), "w")
-            p = subprocess.Popen(cmd, stdout=subprocess.PIPE, stderr=errf, env=e)
+            p = subprocess.Popen(cmd, stdout=subprocess.PIPE, stderr=errf, env=e, preexec_fn=big_stack)
             procs.append((w, p, out, fo, cur, errf))
         deadline = time.time() + ph.get("timeout", 3600)
         for (w, p, out, fo, cur, errf) in procs:
